@@ -85,7 +85,17 @@ func bigSpec(d BigDesc) Spec {
 			switch p.Name {
 			case "vertex_indices", "vertex_index":
 				for m := 0; m < c; m++ {
-					ws = append(ws, uint64(bmix(d.Seed, uint32(k), uint32(2000+m))%uint32(d.NV)))
+					// even corners anywhere, odd corners among the last 4 vertices (so that large vertex numbers occur)
+					h, nv := bmix(d.Seed, uint32(k), uint32(2000+m)), uint32(d.NV)
+					if m%2 == 0 {
+						ws = append(ws, uint64(h%nv))
+					} else {
+						top := nv
+						if top > 4 {
+							top = 4
+						}
+						ws = append(ws, uint64(nv-1-h%top))
+					}
 				}
 			case "texcoord":
 				for m := 0; m < 2*c; m++ {
@@ -228,6 +238,10 @@ func bigCase(d BigDesc, kind string) hx.Case {
 		hl[i] = "[" + strings.Join(fs, ";") + "]%string"
 	}
 	c.Coq = fmt.Sprintf("CBig %s\n [%s]\n %d %s", bigCoq(d), strings.Join(hl, ";\n  "), fpBody(format, body), meshFpCoq(out))
+	if diff := plyx.OtherPaths(data, out, tmpDir); diff != "" {
+		c.GoFail = "the same bytes load differently through " + diff
+		c.FailKey = "ply:read-path"
+	}
 	if out.Class == "hang" || out.Class == "crash" {
 		c.GoFail = fmt.Sprintf("ReadMesh on a specification-conformant file of %d vertices / %d faces: %s: %s", d.NV, d.NF, out.Class, out.Msg)
 		c.FailKey = "ply:read-" + out.Class
